@@ -10,7 +10,8 @@ LEVEL = 'model_checking'
 PREFIX = (('f',), ('f', 's'))
 LABELS = ('e', 'a', 'b', 'c', 'd')
 LABELS2 = ('e', 'a', 'g', 'y')     # incl. transactions / rewards paying a never-seen key twice
-LABELS3 = ('z', 'k', 'e')          # a zero-value reward output to a key that then spends all its positive outputs
+LABELS3 = ('z', 'k', 'e', 'i')     # a zero-value reward output to a key that then spends all its positive outputs; a
+#                                    transaction whose inputs alternate between owners
 
 
 def view_digest(utxo, bal):
